@@ -504,6 +504,63 @@ def c02_closing(params, tier):
     return [("c02_closing:%s" % sorted(p.items()), b.h, U if p["usage"] else NU, {})]
 
 
+@family("C03", "C07", "C12")
+def c03_activity_keeps_alive(params, tier):
+    """A nameplate claimed long ago is used again (repeated claim, open, second side's claim, add) shortly before the
+    sweep that would otherwise expire it; afterwards every claimant is still told the same mailbox id."""
+    if params is None:
+        return [{"again": a, "gap": g, "restart": r, "usage": u}
+                for a in ("reclaim", "reclaim-open", "open", "second-claim", "add", "reclaim-same-conn-kept")
+                for g in (590, 650) for r in (0, 1) for u in (0, 1)]
+    p = params
+    b = HB()
+    b.tag = "c03k"
+    for app in ("app", "app2"):
+        A = b.conn(app, "s1")
+        b.send(A, type="claim", nameplate="7")
+        if p["again"] == "add":
+            b.send(A, type="open", mailbox=claimed(A))
+        if p["again"] != "reclaim-same-conn-kept":
+            b.drop(A) if p["again"] != "add" else None
+    first = {"app": "c1", "app2": "c2"}
+    b.adv(p["gap"])
+    if p["restart"]:
+        b.restart()
+    for app in ("app", "app2"):
+        a0 = first[app]
+        if p["again"] in ("reclaim", "reclaim-open", "reclaim-same-conn-kept"):
+            A2 = b.conn(app, "s1")
+            b.send(A2, type="claim", nameplate="7")
+            if p["again"] == "reclaim-open":
+                b.send(A2, type="open", mailbox=claimed(A2))
+            b.drop(A2)
+        elif p["again"] == "open":
+            A2 = b.conn(app, "s1")
+            b.send(A2, type="open", mailbox=claimed(a0))
+            b.drop(A2)
+        elif p["again"] == "second-claim":
+            B = b.conn(app, "s2")
+            b.send(B, type="claim", nameplate="7")
+            b.drop(B)
+        elif p["again"] == "add":
+            if p["restart"]:
+                A2 = b.conn(app, "s1")
+                b.send(A2, type="open", mailbox=claimed(a0))
+                b.add(A2, "late")
+                b.drop(A2)
+            else:
+                b.add(a0, "late")
+                b.drop(a0)
+    b.adv(320)       # the sweep in here sees the first activity older than the limit, the second one not
+    for app in ("app", "app2"):
+        B = b.conn(app, "s2")
+        b.send(B, type="claim", nameplate="7")
+        A3 = b.conn(app, "s1")
+        b.send(A3, type="claim", nameplate="7")
+        b.send(A3, type="open", mailbox=claimed(A3))
+    return [("c03_activity_keeps_alive:%s" % sorted(p.items()), b.h, U if p["usage"] else NU, {})]
+
+
 @family("C05", "C14")
 def c05_first_two_return(params, tier):
     """F7: after a third side was refused, a first-two side reconnects."""
